@@ -73,7 +73,7 @@ func oneCase(seed int64) result {
 	g := &gen{r: rand.New(rand.NewSource(seed)), stats: map[string]int{}}
 	var root *Node
 	for try := 0; ; try++ { // 3 of 4 roots are containers / references
-		g.stats, g.enums = map[string]int{}, nil
+		g.stats, g.enums, g.enumAST = map[string]int{}, nil, nil
 		root = g.node(1+g.r.Intn(3), false)
 		if try >= 2 || len(root.Kind) > 1 || g.r.Intn(4) == 0 {
 			break
@@ -90,19 +90,20 @@ func oneCase(seed int64) result {
 	if g.r.Intn(2) == 0 {
 		txt = strings.TrimRight(txt, "\r\n")
 	}
-	c := Case{Schema: txt, Enums: g.enums}
+	c := Case{Schema: txt, Enums: g.enums, EnumAST: g.enumAST}
 	c.Types = append(c.Types, userTypes...)
 	want := expNode(root)
 	res := result{c: c, key: txt, stats: g.stats}
 	res.nontriv = len(want.Children) > 0 || len(want.Rules) > 0 || want.Comment != ""
 	type out struct {
-		n   XNode
-		err error
+		n     XNode
+		rules map[string]XNode
+		err   error
 	}
 	ch := make(chan out, 1)
 	go func() {
-		n, err := realAST(c)
-		ch <- out{n, err}
+		n, rules, err := realAST(c)
+		ch <- out{n, rules, err}
 	}()
 	// a case that holds a string whose content looks like another JSON kind is evaluated 8 times: every
 	// evaluation must give the expected tree (nothing may depend on the run)
@@ -111,13 +112,13 @@ func oneCase(seed int64) result {
 		reps = 8
 	}
 	for rpt := 1; rpt < reps; rpt++ {
-		n, err := realAST(c)
+		n, rules, err := realAST(c)
 		if err != nil {
 			res.model, res.impl, res.diff = toJSON(want), "ERROR "+err.Error(), fmt.Sprintf("GetAST failed in evaluation %d of %d", rpt+1, reps)
 			return res
 		}
-		if d := diffNode("root", n, want); d != "" {
-			res.model, res.impl, res.diff = toJSON(want), toJSON(n), fmt.Sprintf("evaluation %d of %d: %s", rpt+1, reps, d)
+		if d, impl := compareAll(c, n, rules, want); d != "" {
+			res.model, res.impl, res.diff = toJSON(want)+" rules "+toJSON(c.EnumAST), impl, fmt.Sprintf("evaluation %d of %d: %s", rpt+1, reps, d)
 			return res
 		}
 	}
@@ -129,15 +130,29 @@ func oneCase(seed int64) result {
 			res.diff = "GetAST failed on a schema that is valid by construction"
 			return res
 		}
-		if d := diffNode("root", o.n, want); d != "" {
-			res.impl = toJSON(o.n)
+		if d, impl := compareAll(c, o.n, o.rules, want); d != "" {
+			res.impl = impl
 			res.diff = d
+			res.model += " rules " + toJSON(c.EnumAST)
 		}
 		countNodes(want, res.stats)
 	case <-time.After(20 * time.Second):
 		res.timeout = true
 	}
 	return res
+}
+
+// compareAll: schema AST and the AST of every named rule object against the expectation; "" when equal.
+func compareAll(c Case, n XNode, rules map[string]XNode, want XNode) (diff, impl string) {
+	if d := diffNode("root", n, want); d != "" {
+		return d, toJSON(n)
+	}
+	for _, e := range c.Enums {
+		if d := diffNode("rule "+e[0], rules[e[0]], c.EnumAST[e[0]]); d != "" {
+			return d + " (GetAST of the named rule object: one child per literal, kind of the literal as written, raw text)", toJSON(rules[e[0]])
+		}
+	}
+	return "", ""
 }
 
 func countNodes(n XNode, st map[string]int) {
@@ -165,12 +180,15 @@ func Run(args []string) {
 				c.Types = append(c.Types, [2]string{a[:i], a[i+1:]})
 			}
 		}
-		n, err := realAST(c)
+		n, rules, err := realAST(c)
 		if err != nil {
 			fmt.Println("ERR", err)
 			return
 		}
 		fmt.Println(toJSON(n))
+		for k, v := range rules {
+			fmt.Println("rule", k, toJSON(v))
+		}
 		return
 	}
 	rep := vh.NewReport("c16-ast", "abstract schemas (literals of 5 kinds, objects with plain keys and at most one key shortcut, arrays, "+
